@@ -105,7 +105,7 @@ class Script:
                 cls = getattr(statew, op['wcls'] + '_' + kind)
             kw = dict(op.get('ctor', {}))
             if kind in ('R', 'PR'):
-                kw['host'] = self.d.get_server().addr
+                kw['host'] = self.d.get_server().addr if 'host' not in op else tuple(op['host'])
             if 'args' in op:
                 kw['args'] = op['args'] if not op.get('args_tuple') else tuple(op['args'])
             if 'kwargs' in op:
@@ -214,6 +214,50 @@ class Script:
                     break
                 out.append(_rep(r))
             return {'ret': out, 'end': end}
+        if o == 'ctx_create':
+            from pyworkers.remote_context import RemoteContext
+            host = self.d.get_server().addr
+            target = getattr(targets, op['target'])
+
+            def mk():
+                return RemoteContext(op['id'], host=host, target=target, args=op.get('args'), kwargs=op.get('kwargs'))
+            st, val = self.raw(mk, op.get('timeout', 20))
+            if st == 'hang':
+                return {'hang': True}
+            if st == 'exc':
+                return {'exc': val}
+            self.vars[op['var']] = val
+            self.contexts = getattr(self, 'contexts', [])
+            self.contexts.append(val)
+            return {'ret': 'created'}
+        if o == 'ctx_delete':
+            c = self.obj(op['var'])
+            return self.call(lambda: c.wait(), op.get('timeout', 30))
+        if o == 'ctx_delete_raw':
+            # a delete request naming a context the server does not know
+            import socket as _s
+            from pyworkers.remote import send_msg, recv_msg
+            host = self.d.get_server().addr
+
+            def f():
+                with _s.socket(_s.AF_INET, _s.SOCK_STREAM) as sk:
+                    sk.settimeout(10)
+                    sk.connect(host)
+                    send_msg(sk, (op['id'], False))
+                    send_msg(sk, None)
+                    return recv_msg(sk)
+            return self.call(f, 15)
+        if o == 'probe':
+            from pyworkers.remote import RemoteWorker
+            host = self.d.get_server().addr
+
+            def f():
+                w = RemoteWorker(targets.square, args=[op.get('x', 7)], host=host)
+                ok = w.wait(10)
+                return [ok, w.result]
+            return self.call(f, 20)
+        if o == 'server_alive':
+            return {'ret': bool(self.d.server is not None and self.d.server._child.is_alive())}
         if o == 'restart':
             w = self.obj(op['var'])
             kw = dict(op.get('kwargs', {}))
@@ -274,6 +318,12 @@ class Script:
 
     def cleanup(self):
         left = []
+        for c in getattr(self, 'contexts', []):
+            try:
+                if c.is_alive():
+                    with_timeout(lambda: c.wait(), 15)
+            except Exception:  # noqa
+                pass
         for name, w in list(self.vars.items()):
             try:
                 if hasattr(w, 'pid') and hasattr(w, '_started') and w._started:
